@@ -500,6 +500,10 @@ impl SlabRouter {
             .map_err(|e| SlabRouterError::WalError(format!("Failed to log put: {e}")))?;
             #[cfg(neumann_verif)]
             crate::verif_hooks::yield_point("store.durable.logged");
+
+            // Apply while still holding the log lock, so that the order of the
+            // records in the log is the order in which the writes take effect.
+            return self.put(key, value);
         }
         #[cfg(neumann_verif)]
         crate::verif_hooks::yield_point("store.durable.unlocked");
@@ -536,6 +540,9 @@ impl SlabRouter {
             .map_err(|e| SlabRouterError::WalError(format!("Failed to log delete: {e}")))?;
             #[cfg(neumann_verif)]
             crate::verif_hooks::yield_point("store.durable.logged");
+
+            // Apply while still holding the log lock (see put_durable).
+            return self.delete(key);
         }
         #[cfg(neumann_verif)]
         crate::verif_hooks::yield_point("store.durable.unlocked");
